@@ -45,6 +45,12 @@ def run_random(spec, out, alpha, nontrivial, shutdown=False):
                lambda k: st.lists(ops, min_size=k, max_size=k)),
            st.integers(0, 1000))
     def test(cfg, oplist, sd):
+        if 'ctor' not in cfg and sd % 6 >= 4:
+            # how the initial variables get declared: BDD(levels) with
+            # the dict in another insertion order, or copy_vars from a
+            # reordered manager
+            cfg = dict(cfg, ctor=('levels', 'copy_vars')[sd % 6 - 4],
+                       ctor_seed=sd)
         hist = dict(cfg=cfg, ops=oplist)
         if shutdown:
             hist['shutdown'] = sd
